@@ -231,6 +231,22 @@ func runCheck(repo, root, prop, tier string, rebase, verbose bool) int {
 	var runs []*unitRun
 	var toolErrs []string
 	d := NewDischarger(timeout, thorough)
+	multiTags := len(cfg.Tags) > 1
+	if os.Getenv("GOVC_CLAIM_ALL") == "" && !rebase {
+		d.Claimed = func(id string) bool {
+			if baseline[id] {
+				return true
+			}
+			if multiTags {
+				for _, tags := range cfg.Tags {
+					if baseline["["+strings.Join(tags, ",")+"] "+id] {
+						return true
+					}
+				}
+			}
+			return false
+		}
+	}
 	nContracts := 0
 	var contractFiles []string
 	for _, tags := range cfg.Tags {
@@ -240,8 +256,8 @@ func runCheck(repo, root, prop, tier string, rebase, verbose bool) int {
 		// select units
 		var keys []string
 		for key, ct := range specs.Funcs {
-			if ct.IsIface {
-				continue
+			if ct.IsIface || ct.Flags["trusted"] {
+				continue // assumed contracts are not verified (listed in the trusted base where used)
 			}
 			if _, ok := prog.ByKey[key]; !ok {
 				toolErrs = append(toolErrs, fmt.Sprintf("contract for %s (%s) matches no function under tags %s", key, ct.Source, tagStr))
